@@ -270,6 +270,13 @@ struct kdump_bmp_ops {
 
 	/** Clean up any private data. */
 	void (*cleanup)(const kdump_bmp_t *bmp);
+
+	/** Clean up any private data with the shared lock already held.
+	 * Used instead of @c cleanup when the library itself drops the
+	 * last reference while it holds the (write) lock of the shared
+	 * data that the bitmap refers to. May be @c NULL.
+	 */
+	void (*cleanup_locked)(const kdump_bmp_t *bmp);
 };
 
 /* kdump bitmaps */
@@ -293,6 +300,7 @@ DECLARE_ALIAS(bmp_decref);
 
 INTERNAL_DECL(kdump_bmp_t *, kdump_bmp_new,
 	      (const struct kdump_bmp_ops *ops));
+INTERNAL_DECL(unsigned long, bmp_decref_locked, (kdump_bmp_t *bmp));
 
 INTERNAL_DECL(void, set_bits,
 	      (unsigned char *buf, size_t start, size_t end));
